@@ -14,6 +14,8 @@
  *   push <slot> <e>     pop <slot>      pushat <slot> <e> <i>      popat <slot> <i>      append <slot> <e>
  *   get <slot> <i>      set <slot> <i> <e>     mem <slot> <v>      rem <slot> <v>        len <slot>
  *   concat <slot> <src>     assign <slot> <src>     resize <slot> <n>     sort <slot> <0|1|2|3>     iter <slot>
+ *   assign <dst> <src> between Array / List kinds of DIFFERENT element types: the target takes over the element type of the source
+ *                                       (Array_Assign / List_Assign set type = iter_type(obj)) and is dumped as that kind from then on
  *   assign <slot> <slot>                (assign(x, x): since fix a3140e4 a no-op for Array and List; Tuple re-stores its own cells)
  *   assignf <slot> <src> <0|1|2>        (assign(x, filter(src, p)): an iterator-only source — no Len, no Get; p = 0 keeps every
  *                                       element, 1 the even values, 2 none.  Array: clear + push each; List: ClassError after the
@@ -32,6 +34,16 @@
  *   kfown <push|pushat> <nslots> <k> <i> <e>*   (known finding KF-C04-push-own-element: on a fresh Array<Int> with these elements
  *                                       and capacity max(len, nslots): push(a, get(a, k)) / push_at(a, get(a, k), i) (i is
  *                                       ignored for push), in a forked child; prints `ret <dump>` | `ub`)
+ *   setelem <slot> <i> <k>             (set(x, i, get(x, k)): nothing moves; for i = k the element is assigned to itself — String_Assign(s, s)
+ *                                       is a no-op since fix 744a45f; Tuple: a pointer may only replace itself, else `dup-refused`)
+ *   remelem <slot> <k>    memelem <slot> <k>    (rem(x, get(x, k)) / mem(x, get(x, k)))
+ *   concatelems <slot> <k1> <k2>        (concat(x, tuple(get(x, k1), get(x, k2))): the operand holds pointers to x's own elements.  Array:
+ *                                       `own-refused` when it would have to grow (known finding KF-C04-push-own-element, site
+ *                                       Array_Concat: realloc before the operand is read); List: always executed; Tuple: `dup-refused`)
+ *   kfown <concat|assign|lassign> <nslots> <k1> <k2> <e>*   (same finding, in a forked child: concat / assign(a, tuple(get(a, k1), get(a, k2)))
+ *                                       on a fresh Array<Int>, lassign: assign on a fresh List<Int>; assign frees the block / the nodes first)
+ *   kfraw <n> <e>*                      (known finding KF-C04-list-resize-raw, forked child: fresh List<String>, resize(l, n), then
+ *                                       mem(l, absent): beyond the length the List links calloc'ed records with a NULL buffer)
  * kinds A12 / A5 = Array of 12-byte / 5-byte records (file-scope types Rec12 / Rec5: own Cmp, no Swap, no Assign, sizes
  * that are not a multiple of the machine word, so the default byte-wise swap/assign paths and the rounded Array stride are
  * exercised); an integer v is encoded in the whole record (redundantly: a trailing check field), a record whose fields do
@@ -475,6 +487,7 @@ static void run_kfself(int isc, int k, int reserve, Ent* es, size_t n) {
 }
 
 /* ---- known finding KF-C04-push-own-element: an Array's own element as the argument of push / push_at, in a forked child ---- */
+static void run_kfown2(int mode, size_t nslots, int64_t k1, int64_t k2, Ent* es, size_t n);
 static void run_kfown(int isat, size_t nslots, int64_t kidx, int64_t iidx, Ent* es, size_t n) {
   int pf[2]; if (pipe(pf)) { perror("pipe"); exit(2); }
   fflush(stdout);
@@ -518,6 +531,93 @@ static void run_kfown(int isat, size_t nslots, int64_t kidx, int64_t iidx, Ent* 
   if (!bl || strcmp(bl, want) != 0)
     X("sig=%s line=%zu what=%s(a, get(a, %" PRId64 ")%s) leaves `%s`, the abstract sequence is %s: the argument is read after the records were shifted and record i was zeroed",
       sig, cur_line, isat ? "push_at" : "push", kidx, isat ? ", i" : "", b, want);
+  free(e.ref);
+}
+
+/* same finding through the OPERAND: mode 0 = concat(a, tuple(get(a,k1), get(a,k2))), 1 = assign(a, …) on an Array<Int>, 2 = assign on a List<Int> */
+static void run_kfown2(int mode, size_t nslots, int64_t k1, int64_t k2, Ent* es, size_t n) {
+  int pf[2]; if (pipe(pf)) { perror("pipe"); exit(2); }
+  fflush(stdout);
+  int kind = mode == 2 ? K_L : K_A;
+  pid_t pid = fork();
+  if (pid == 0) {
+    close(pf[0]);
+    int devnull = open("/dev/null", O_WRONLY); if (devnull >= 0) dup2(devnull, 2);
+    alarm(30);
+    Slot s; memset(&s, 0, sizeof s); s.kind = kind;
+    s.obj = new_container(kind, es, n);
+    if (kind == K_A && nslots > n) resize(s.obj, nslots);
+    var exc; var p1 = NULL; var p2 = NULL;
+    V_TRY(exc, { p1 = get(s.obj, $I(k1)); p2 = get(s.obj, $I(k2)); });
+    if (!exc) { if (mode == 0) V_TRY(exc, concat(s.obj, tuple(p1, p2))); else V_TRY(exc, assign(s.obj, tuple(p1, p2))); }
+    alarm(0);
+    char b[4096]; size_t o = 0;
+    if (exc) o = snprintf(b, sizeof b, "err=%s", v_exc_name(exc));
+    else { read_rep(&s); o = fmt_dump(b, sizeof b, &s); }
+    if (write(pf[1], b, o) < 0) {}
+    _exit(0);
+  }
+  close(pf[1]); static char b[4200]; size_t got = 0; ssize_t r;
+  while ((r = read(pf[0], b + got, sizeof b - 1 - got)) > 0) got += r; b[got] = 0; close(pf[0]);
+  int st; waitpid(pid, &st, 0);
+  const char* opn = mode == 0 ? "concat" : mode == 1 ? "assign" : "lassign"; const char* sig = "KF-C04-push-own-element";
+  size_t p1 = 0, p2 = 0; int in1 = ref_idx(n, k1, &p1), in2 = ref_idx(n, k2, &p2);
+  if (!WIFEXITED(st) || WEXITSTATUS(st) != 0) {
+    O("kfown %s ub", opn);
+    X("sig=%s line=%zu what=%s(x, tuple(get(x, %" PRId64 "), get(x, %" PRId64 "))) on a%s of %zu elements leaves the object: the operand's pointers are read after %s (%s %d)",
+      sig, cur_line, mode == 0 ? "concat" : "assign", k1, k2, kind == K_L ? " List" : "n Array", n,
+      mode == 0 ? "realloc moved the block" : kind == K_L ? "List_Clear freed the nodes" : "Array_Clear freed the block",
+      WIFEXITED(st) ? "sanitizer exit status" : "signal", WIFEXITED(st) ? WEXITSTATUS(st) : WTERMSIG(st));
+    return;
+  }
+  O("kfown %s ret %s", opn, b);
+  if (!in1 || !in2) { if (strcmp(b, "err=IndexOutOfBoundsError")) X("sig=C04-outcome line=%zu what=kfown with an index out of range returned `%s`", cur_line, b); return; }
+  Slot e; memset(&e, 0, sizeof e); e.kind = kind;
+  ref_reserve(&e, n + 2); e.n = 0; if (mode == 0) { entcpy(e.ref, es, n); e.n = n; }
+  ref_insert(&e, e.n, es[p1]); ref_insert(&e, e.n, es[p2]);
+  char want[4096]; fmt_seq(want, sizeof want, e.ref, e.n);
+  char* bl = strchr(b, '[');
+  if (!bl || strcmp(bl, want) != 0)
+    X("sig=%s line=%zu what=%s(x, tuple(get(x, k1), get(x, k2))) leaves `%s`, the abstract sequence is %s", sig, cur_line, opn, b, want);
+  free(e.ref);
+}
+
+/* ---- known finding KF-C04-list-resize-raw: resize of a List<String> beyond its length, then mem, in a forked child ---- */
+static void run_kfraw(size_t newn, Ent* es, size_t n) {
+  int pf[2]; if (pipe(pf)) { perror("pipe"); exit(2); }
+  fflush(stdout);
+  pid_t pid = fork();
+  if (pid == 0) {
+    close(pf[0]);
+    int devnull = open("/dev/null", O_WRONLY); if (devnull >= 0) dup2(devnull, 2);
+    alarm(30);
+    Slot s; memset(&s, 0, sizeof s); s.kind = K_LS;
+    s.obj = new_container(K_LS, es, n);
+    var exc; volatile bool m = false;
+    V_TRY(exc, resize(s.obj, newn));
+    if (!exc) { ARG_DECL(p); Ent ab = { ABSENT, -1 }; V_TRY(exc, m = mem(s.obj, ARG(p, K_LS, ab, 0))); }
+    (void)m; alarm(0);
+    char b[4096]; size_t o = 0;
+    if (exc) o = snprintf(b, sizeof b, "err=%s", v_exc_name(exc));
+    else { read_rep(&s); o = fmt_dump(b, sizeof b, &s); }
+    if (write(pf[1], b, o) < 0) {}
+    _exit(0);
+  }
+  close(pf[1]); static char b[4200]; size_t got = 0; ssize_t r;
+  while ((r = read(pf[0], b + got, sizeof b - 1 - got)) > 0) got += r; b[got] = 0; close(pf[0]);
+  int st; waitpid(pid, &st, 0);
+  if (!WIFEXITED(st) || WEXITSTATUS(st) != 0) {
+    O("kfraw ub");
+    X("sig=KF-C04-list-resize-raw line=%zu what=resize(l, %zu) on a List<String> of %zu elements links records that were never constructed (NULL buffer): mem(l, x) on it leaves the object (%s %d)",
+      cur_line, newn, n, WIFEXITED(st) ? "sanitizer exit status" : "signal", WIFEXITED(st) ? WEXITSTATUS(st) : WTERMSIG(st));
+    return;
+  }
+  O("kfraw ret %s", b);
+  Slot e; memset(&e, 0, sizeof e); e.kind = K_LS; ref_reserve(&e, n + 1); entcpy(e.ref, es, n); e.n = newn < n ? newn : n;
+  char want[4096]; fmt_seq(want, sizeof want, e.ref, e.n);
+  char* bl = strchr(b, '[');
+  if (newn > n || !bl || strcmp(bl, want) != 0)
+    X("sig=%s line=%zu what=resize(l, %zu) on a List<String> of %zu elements leaves `%s`", newn > n ? "KF-C04-list-resize-raw" : "C04-contents", cur_line, newn, n, b);
   free(e.ref);
 }
 
@@ -579,11 +679,21 @@ int main(int argc, char** argv) {
     }
     if (!strcmp(cmd, "kfown") && nt >= 5) {
       int isat = !strcmp(toks[1], "pushat"); int64_t ns, kk, ii;
-      if ((!isat && strcmp(toks[1], "push")) || !parse_nat(toks[2], &ns) || ns > 100000 || !parse_i64(toks[3], &kk) || !parse_i64(toks[4], &ii)) { O("bad-op"); continue; }
+      int mode2 = !strcmp(toks[1], "concat") ? 0 : !strcmp(toks[1], "assign") ? 1 : !strcmp(toks[1], "lassign") ? 2 : -1;
+      if ((!isat && mode2 < 0 && strcmp(toks[1], "push")) || !parse_nat(toks[2], &ns) || ns > 100000 || !parse_i64(toks[3], &kk) || !parse_i64(toks[4], &ii)) { O("bad-op"); continue; }
       size_t n = nt - 5; Ent* es = malloc((n + 1) * sizeof(Ent)); int ok = 1;
       for (size_t i = 0; i < n && ok; i++) ok = parse_elem(K_A, toks[5 + i], &es[i]);
       if (!ok || n > 200) { free(es); O("bad-op"); continue; }
-      run_kfown(isat, (size_t)ns, kk, ii, es, n); free(es); continue;
+      if (mode2 >= 0) { size_t q1, q2; if (ref_idx(n, kk, &q1) && ref_idx(n, ii, &q2) && q1 == q2) { free(es); O("bad-op"); continue; } }   /* operand with one pointer twice: F13 */
+      if (mode2 >= 0) run_kfown2(mode2, (size_t)ns, kk, ii, es, n); else run_kfown(isat, (size_t)ns, kk, ii, es, n);
+      free(es); continue;
+    }
+    if (!strcmp(cmd, "kfraw") && nt >= 2) {
+      int64_t nn; if (!parse_nat(toks[1], &nn) || nn > 1000) { O("bad-op"); continue; }
+      size_t n = nt - 2; Ent* es = malloc((n + 1) * sizeof(Ent)); int ok = 1;
+      for (size_t i = 0; i < n && ok; i++) ok = parse_elem(K_LS, toks[2 + i], &es[i]);
+      if (!ok || n > 200) { free(es); O("bad-op"); continue; }
+      run_kfraw((size_t)nn, es, n); free(es); continue;
     }
     if (!strcmp(cmd, "new") && nt >= 3) {
       s = slot_of(toks[1], 0); int k = K_NONE; int stk = !strcmp(toks[2], "TK");
@@ -616,7 +726,7 @@ int main(int argc, char** argv) {
     Ent e; int64_t iv; size_t kpos;
     if (s->stk && (!strcmp(cmd, "push") || !strcmp(cmd, "append") || !strcmp(cmd, "pop") || !strcmp(cmd, "pushat") || !strcmp(cmd, "popat") ||
                    !strcmp(cmd, "rem") || !strcmp(cmd, "concat") || !strcmp(cmd, "assign") || !strcmp(cmd, "assignf") || !strcmp(cmd, "resize") ||
-                   !strcmp(cmd, "pushelem") || !strcmp(cmd, "pushatelem"))) {
+                   !strcmp(cmd, "pushelem") || !strcmp(cmd, "pushatelem") || !strcmp(cmd, "remelem"))) {
       /* a Tuple that is not on the heap refuses to reallocate: the op raises and nothing changes (the reference is left alone) */
       var want = ValueError; int64_t kv; size_t kk;
       if ((!strcmp(cmd, "push") || !strcmp(cmd, "append")) && nt == 3) {
@@ -650,6 +760,11 @@ int main(int argc, char** argv) {
         var own = NULL; V_TRY(exc, own = get(s->obj, $I(kv)));
         if (!exc) { if (isat) V_TRY(exc, push_at(s->obj, own, $I(iv))); else V_TRY(exc, push(s->obj, own)); }
         if (!ref_idx(n, kv, &kk) || (isat && !ref_idx(n, iv, &kpos))) want = IndexOutOfBoundsError;
+      } else if (!strcmp(cmd, "remelem") && nt == 3) {
+        if (!parse_i64(toks[2], &kv)) { O("bad-op"); continue; }
+        var own = NULL; V_TRY(exc, own = get(s->obj, $I(kv)));
+        if (!exc) V_TRY(exc, rem(s->obj, own));
+        if (!ref_idx(n, kv, &kk)) want = IndexOutOfBoundsError;
       } else { O("bad-op"); continue; }
       expect_exc(cmd, exc, want);
       check_state(s, -1, force_iter); emit(cmd, res_of(exc, rb, sizeof rb), s); continue;
@@ -722,8 +837,12 @@ int main(int argc, char** argv) {
         V_TRY(exc, assign(s->obj, s->obj)); expect_exc(cmd, exc, NULL);
         check_state(s, -1, force_iter); emit(cmd, res_of(exc, rb, sizeof rb), s); continue;
       }
-      int sk = src->kind, okk;
+      int sk = src->kind, okk, newk = k;
       if (k == K_T) okk = sk == K_T;
+      else if (!isc && sk != K_T && (is_arr(k) || !is_rec(sk))) {
+        /* assign takes over the element type of the source (Array_Assign / List_Assign: type = iter_type(obj)): the container changes kind */
+        okk = 1; newk = is_arr(k) ? (is_str(sk) ? K_AS : sk == K_A12 ? K_A12 : sk == K_A5 ? K_A5 : K_A) : (is_str(sk) ? K_LS : K_L);
+      }
       else if (is_str(k)) okk = is_str(sk);
       else if (is_rec(k)) okk = sk == k;
       else okk = sk == K_A || sk == K_L || (isc && sk == K_T);
@@ -732,6 +851,7 @@ int main(int argc, char** argv) {
       if (isc) V_TRY(exc, concat(s->obj, src->obj)); else V_TRY(exc, assign(s->obj, src->obj));
       expect_exc(cmd, exc, NULL);
       if (!isc) s->n = 0;
+      s->kind = k = newk;
       for (size_t i = 0; i < src->n; i++) { Ent x = src->ref[i]; if (k != K_T) x.id = -1; ref_insert(s, s->n, x); }
     } else if ((!strcmp(cmd, "pushelem") && nt == 3) || (!strcmp(cmd, "pushatelem") && nt == 4)) {
       int isat = cmd[4] == 'a'; int64_t kv; size_t kk;
@@ -748,6 +868,45 @@ int main(int argc, char** argv) {
       if (!exc) { if (isat) V_TRY(exc, push_at(s->obj, own, $I(iv))); else V_TRY(exc, push(s->obj, own)); }
       expect_exc(cmd, exc, (kin && inr) ? NULL : IndexOutOfBoundsError);
       if (kin && inr) { Ent x = s->ref[kk]; ref_insert(s, kpos, x); }
+    } else if (!strcmp(cmd, "setelem") && nt == 4) {
+      int64_t kv; size_t kk;
+      if (!parse_i64(toks[2], &iv) || !parse_i64(toks[3], &kv)) { O("bad-op"); continue; }
+      int kin = ref_idx(n, kv, &kk), inr = ref_idx(n, iv, &kpos);
+      if (k == K_T && kin && inr && kk != kpos) { O("setelem dup-refused"); continue; }
+      var own = NULL; V_TRY(exc, own = get(s->obj, $I(kv)));
+      if (!exc) V_TRY(exc, set(s->obj, $I(iv), own));
+      expect_exc(cmd, exc, (kin && inr) ? NULL : IndexOutOfBoundsError);
+      if (kin && inr) s->ref[kpos] = s->ref[kk];
+    } else if (!strcmp(cmd, "remelem") && nt == 3) {
+      int64_t kv; size_t kk;
+      if (!parse_i64(toks[2], &kv)) { O("bad-op"); continue; }
+      int kin = ref_idx(n, kv, &kk);
+      var own = NULL; V_TRY(exc, own = get(s->obj, $I(kv)));
+      if (!exc) V_TRY(exc, rem(s->obj, own));
+      expect_exc(cmd, exc, kin ? NULL : IndexOutOfBoundsError);
+      if (kin) { for (size_t i = 0; i < n; i++) if (s->ref[i].val == s->ref[kk].val) { kpos = i; break; } ref_erase(s, kpos); }   /* the FIRST equal element */
+    } else if (!strcmp(cmd, "memelem") && nt == 3) {
+      int64_t kv; size_t kk;
+      if (!parse_i64(toks[2], &kv)) { O("bad-op"); continue; }
+      int kin = ref_idx(n, kv, &kk); volatile bool m = false;
+      var own = NULL; V_TRY(exc, own = get(s->obj, $I(kv)));
+      if (!exc) V_TRY(exc, m = mem(s->obj, own));
+      expect_exc(cmd, exc, kin ? NULL : IndexOutOfBoundsError);
+      if (!exc && !m) XF("C04-mem", "mem(x, get(x, %" PRId64 ")) = 0", kv);
+      check_state(s, -1, force_iter);
+      if (exc) { emit(cmd, res_of(exc, rb, sizeof rb), s); continue; }
+      emit(cmd, m ? "b=1" : "b=0", s); continue;
+    } else if (!strcmp(cmd, "concatelems") && nt == 4) {
+      int64_t k1, k2; size_t p1, p2;
+      if (!parse_i64(toks[2], &k1) || !parse_i64(toks[3], &k2)) { O("bad-op"); continue; }
+      int in1 = ref_idx(n, k1, &p1), in2 = ref_idx(n, k2, &p2);
+      if (in1 && in2 && (k == K_T || p1 == p2)) { O("concatelems dup-refused"); continue; }   /* the operand Tuple would hold one pointer twice: F13 */
+      if (in1 && in2 && is_arr(k) && n + 2 > nslots0) { O("concatelems own-refused"); continue; }
+      var q1 = NULL; var q2 = NULL;
+      V_TRY(exc, { q1 = get(s->obj, $I(k1)); q2 = get(s->obj, $I(k2)); });
+      if (!exc) V_TRY(exc, concat(s->obj, tuple(q1, q2)));
+      expect_exc(cmd, exc, (in1 && in2) ? NULL : IndexOutOfBoundsError);
+      if (in1 && in2) { Ent x = s->ref[p1], y = s->ref[p2]; ref_insert(s, s->n, x); ref_insert(s, s->n, y); }
     } else if (!strcmp(cmd, "assignf") && nt == 4) {
       src = slot_of(toks[2], 1); int64_t pv;
       if (!src || src == s || !parse_nat(toks[3], &pv) || pv > 2) { O("bad-op"); continue; }
